@@ -27,6 +27,7 @@ SEMANTIC = [
     (re.compile(r'decreases not satisfied|could not prove termination|termination'), 'terminates'),
     (re.compile(r'recommendation not met|recommends'), 'recommends'),
     (re.compile(r'possible truncation|cast'), 'panic_free'),
+    (re.compile(r'type invariant'), 'panic_free'),
 ]
 NONSEMANTIC = re.compile(r'rlimit|Resource limit|timed out|timeout|solver|not supported|unsupported|internal error', re.I)
 
@@ -51,7 +52,7 @@ def run_verus(text, workdir, name, rlimit=None, seed=None, timeout=600, extra=No
     cmd += ['--', '--error-format=json']
     t0 = time.time()
     try:
-        p = subprocess.run(cmd, cwd=workdir, capture_output=True, text=True, timeout=timeout)
+        p = run_group(cmd, cwd=workdir, timeout=timeout)
     except subprocess.TimeoutExpired:
         raise Undecided('verus timed out after %ds on %s' % (timeout, name))
     wall = time.time() - t0
@@ -73,6 +74,33 @@ def run_verus(text, workdir, name, rlimit=None, seed=None, timeout=600, extra=No
             diags.append(d)
     return {'cmd': ' '.join(cmd), 'rc': p.returncode, 'json': out, 'diags': diags, 'stderr': p.stderr,
             'wall': wall, 'path': path}
+
+
+class _P:
+    pass
+
+
+def run_group(cmd, cwd=None, env=None, timeout=None):
+    """subprocess.run in its own process group; the whole group is killed on timeout or interruption
+    (cargo-kani / cbmc / z3 children must not outlive the check)."""
+    import signal
+    proc = subprocess.Popen(cmd, cwd=cwd, env=env, stdout=subprocess.PIPE, stderr=subprocess.PIPE, text=True,
+                            start_new_session=True)
+    try:
+        out, err = proc.communicate(timeout=timeout)
+    except BaseException:
+        try:
+            os.killpg(proc.pid, signal.SIGKILL)
+        except Exception:
+            pass
+        try:
+            proc.communicate(timeout=10)
+        except Exception:
+            pass
+        raise
+    r = _P()
+    r.returncode, r.stdout, r.stderr = proc.returncode, out, err
+    return r
 
 
 def fn_of_line(ranges, ln):
@@ -116,7 +144,10 @@ def evaluate(res, meta):
             if item:
                 break
         label = None
-        for s in spans:
+        # primary spans first ("failed this postcondition" / the invariant itself); secondary spans only when
+        # they are short: "at the end of the function body" covers the whole body and would pick up any label in it
+        nonprim = [x for x in spans if not x.get('is_primary') and x['line_end'] - x['line_start'] <= 3]
+        for s in prim + nonprim:
             for ln in range(s['line_start'], s['line_end'] + 1):
                 if ln in labels:
                     label = labels[ln][1]
